@@ -39,7 +39,9 @@ package biscuit
 //@ loop 0 invariant (forall j int :: { opts[j] } 0 <= j && j < #i ==> !(opts[j] is rootKeyIDOption)) ==> options.rootKeyID == nil
 //@ loop 0 invariant #i > 0 && opts[#i-1] is rootKeyIDOption ==> options.rootKeyID != nil && *options.rootKeyID == opts[#i-1].(rootKeyIDOption)
 //@ loop 0 invariant rng: #i > 0 && opts[#i-1] is rngOption && opts[#i-1].(rngOption).Reader != nil ==> options.rng == opts[#i-1].(rngOption).Reader
+//@ loop 0 invariant rng_any: forall k int :: { opts[k] } 0 <= k && k < #i && opts[k] is rngOption && opts[k].(rngOption).Reader != nil && (forall j int :: { opts[j] } k < j && j < #i ==> !(opts[j] is rngOption)) ==> options.rng == opts[k].(rngOption).Reader
 //@ ensures no_token_on_error: err != nil ==> res == nil
+//@ ensures entropy_failure_of_the_last_source_is_reported[C20]: forall k int :: { opts[k] } 0 <= k && k < len(opts) && opts[k] is rngOption && opts[k].(rngOption).Reader != nil && (forall j int :: { opts[j] } k < j && j < len(opts) ==> !(opts[j] is rngOption)) && !entropyOK(opts[k].(rngOption).Reader) ==> err != nil
 //@ ensures entropy_failure_is_reported[C20]: len(opts) > 0 && opts[len(opts)-1] is rngOption && opts[len(opts)-1].(rngOption).Reader != nil && !entropyOK(opts[len(opts)-1].(rngOption).Reader) ==> err != nil
 //@ ensures wf: err == nil ==> wfToken(res) && len(res.blocks) == 0 && res.authority == authority
 //@ ensures keyid_absent[C16]: err == nil && (forall j int :: { opts[j] } 0 <= j && j < len(opts) ==> !(opts[j] is rootKeyIDOption)) ==> res.container.RootKeyId == nil
@@ -607,6 +609,7 @@ package biscuit
 //@ requires authWF(v) && bPredWF(fact.Predicate)
 //@ modifies *v.world.facts, spare(*v.world.facts), *v.symbols, spare(*v.symbols)
 //@ ensures authWF(v)
+//@ ensures grown: tableGrown(*v.symbols, old(*v.symbols)) && factsGrown(*v.world.facts, old(*v.world.facts))
 //@ ensures keeps_inv: old(authInv(v)) ==> authInv(v)
 
 //@ func (v *authorizer) AddRule(rule Rule)
@@ -614,6 +617,7 @@ package biscuit
 //@ requires authWF(v) && bRuleWF(rule)
 //@ modifies v.world.rules, spare(v.world.rules), *v.symbols, spare(*v.symbols)
 //@ ensures authWF(v)
+//@ ensures grown: tableGrown(*v.symbols, old(*v.symbols)) && rulesGrown(v.world.rules, old(v.world.rules))
 //@ ensures keeps_inv: old(authInv(v)) ==> authInv(v)
 
 //@ func (v *authorizer) AddCheck(check Check)
@@ -621,6 +625,7 @@ package biscuit
 //@ requires authWF(v) && bCheckWF(check)
 //@ modifies v.checks, spare(v.checks)
 //@ ensures authWF(v) && len(v.checks) == old(len(v.checks)) + 1
+//@ ensures grown: (arr(v.checks) == old(arr(v.checks)) && off(v.checks) == old(off(v.checks)) && cap(v.checks) == old(cap(v.checks))) || fresh(arr(v.checks))
 //@ ensures keeps_inv: old(authInv(v)) ==> authInv(v)
 
 //@ func (v *authorizer) AddPolicy(policy Policy)
@@ -628,6 +633,47 @@ package biscuit
 //@ requires authWF(v) && bPolicyWF(policy)
 //@ modifies v.policies, spare(v.policies)
 //@ ensures authWF(v) && len(v.policies) == old(len(v.policies)) + 1
+//@ ensures grown: (arr(v.policies) == old(arr(v.policies)) && off(v.policies) == old(off(v.policies)) && cap(v.policies) == old(cap(v.policies))) || fresh(arr(v.policies))
+//@ ensures keeps_inv: old(authInv(v)) ==> authInv(v)
+
+// convenience wrappers over AddFact / AddRule / AddCheck / AddPolicy
+//@ func (v *authorizer) AddBlock(block ParsedBlock)
+//@ serves C10 C13 C19
+//@ requires authWF(v) && bFactsWF(block.Facts) && bRulesWF(block.Rules) && bChecksWF(block.Checks) && ((arr(block.Checks) != arr(v.checks) && allocated(arr(block.Checks))) || len(block.Checks) == 0)
+//@ modifies *v.world.facts, spare(*v.world.facts), v.world.rules, spare(v.world.rules), v.checks, spare(v.checks), *v.symbols, spare(*v.symbols)
+//@ loop 0 modifies *v.world.facts, spare(*v.world.facts), *v.symbols, spare(*v.symbols)
+//@ loop 0 invariant wf: authWF(v)
+//@ loop 0 invariant inv: old(authInv(v)) ==> authInv(v)
+//@ loop 0 invariant syms: tableGrown(*v.symbols, old(*v.symbols)) && tableGrownInLoop(*v.symbols, pre(*v.symbols))
+//@ loop 0 invariant facts: factsGrown(*v.world.facts, old(*v.world.facts)) && factsGrownInLoop(*v.world.facts, pre(*v.world.facts))
+//@ loop 1 modifies v.world.rules, spare(v.world.rules), *v.symbols, spare(*v.symbols)
+//@ loop 1 invariant wf: authWF(v)
+//@ loop 1 invariant inv: old(authInv(v)) ==> authInv(v)
+//@ loop 1 invariant syms: tableGrown(*v.symbols, old(*v.symbols)) && tableGrownInLoop(*v.symbols, pre(*v.symbols))
+//@ loop 1 invariant rules: rulesGrown(v.world.rules, old(v.world.rules)) && rulesGrownInLoop(v.world.rules, pre(v.world.rules))
+//@ loop 2 modifies v.checks, spare(v.checks)
+//@ loop 2 invariant wf: authWF(v) && len(v.checks) == old(len(v.checks)) + #i
+//@ loop 2 invariant inv: old(authInv(v)) ==> authInv(v)
+//@ loop 2 invariant checksA: (arr(v.checks) == old(arr(v.checks)) && off(v.checks) == old(off(v.checks)) && cap(v.checks) == old(cap(v.checks))) || fresh(arr(v.checks))
+//@ loop 2 invariant checksB: (arr(v.checks) == pre(arr(v.checks)) && off(v.checks) == pre(off(v.checks)) && cap(v.checks) == pre(cap(v.checks))) || freshInLoop(arr(v.checks))
+//@ loop 2 invariant apart: (arr(block.Checks) != arr(v.checks) && allocated(arr(block.Checks))) || len(block.Checks) == 0
+//@ ensures wf: authWF(v) && len(v.checks) == old(len(v.checks)) + len(block.Checks)
+//@ ensures base_untouched[C13]: v.baseWorld == old(v.baseWorld) && v.baseSymbols == old(v.baseSymbols)
+//@ ensures keeps_inv: old(authInv(v)) ==> authInv(v)
+
+//@ func (v *authorizer) AddAuthorizer(a ParsedAuthorizer)
+//@ serves C10 C13 C19
+//@ requires authWF(v) && bFactsWF(a.Block.Facts) && bRulesWF(a.Block.Rules) && bChecksWF(a.Block.Checks) && ((arr(a.Block.Checks) != arr(v.checks) && allocated(arr(a.Block.Checks))) || len(a.Block.Checks) == 0)
+//@ requires bPoliciesWF(a.Policies) && ((arr(a.Policies) != arr(v.policies) && allocated(arr(a.Policies))) || len(a.Policies) == 0)
+//@ modifies *v.world.facts, spare(*v.world.facts), v.world.rules, spare(v.world.rules), v.checks, spare(v.checks), v.policies, spare(v.policies), *v.symbols, spare(*v.symbols)
+//@ loop 0 modifies v.policies, spare(v.policies)
+//@ loop 0 invariant wf: authWF(v) && len(v.policies) == old(len(v.policies)) + #i
+//@ loop 0 invariant inv: old(authInv(v)) ==> authInv(v)
+//@ loop 0 invariant policiesA: (arr(v.policies) == old(arr(v.policies)) && off(v.policies) == old(off(v.policies)) && cap(v.policies) == old(cap(v.policies))) || fresh(arr(v.policies))
+//@ loop 0 invariant policiesB: (arr(v.policies) == pre(arr(v.policies)) && off(v.policies) == pre(off(v.policies)) && cap(v.policies) == pre(cap(v.policies))) || freshInLoop(arr(v.policies))
+//@ loop 0 invariant apart: (arr(a.Policies) != arr(v.policies) && allocated(arr(a.Policies))) || len(a.Policies) == 0
+//@ ensures wf: authWF(v) && len(v.policies) == old(len(v.policies)) + len(a.Policies) && len(v.checks) == old(len(v.checks)) + len(a.Block.Checks)
+//@ ensures base_untouched[C13]: v.baseWorld == old(v.baseWorld) && v.baseSymbols == old(v.baseSymbols)
 //@ ensures keeps_inv: old(authInv(v)) ==> authInv(v)
 
 //@ func (v *authorizer) Reset()
@@ -909,7 +955,12 @@ package biscuit
 //@ modifies b.symbolsStart, b.symbols, b.rng, b.rootKeyID
 //@ ensures symbols: (o is symbolsOption ==> b.symbols != nil && fresh(b.symbols) && b.symbolsStart == len(*b.symbols)) && (!(o is symbolsOption) ==> b.symbols == old(b.symbols) && b.symbolsStart == old(b.symbolsStart))
 //@ ensures keyid[C16]: (o is rootKeyIDOption ==> b.rootKeyID != nil && *b.rootKeyID == o.(rootKeyIDOption)) && (!(o is rootKeyIDOption) ==> b.rootKeyID == old(b.rootKeyID))
-//@ ensures rng[C20]: (o is rngOption && o.(rngOption).Reader != nil ==> b.rng != nil) && (!(o is rngOption) ==> b.rng == old(b.rng))
+//@ ensures rng[C20]: (o is rngOption && o.(rngOption).Reader != nil ==> b.rng != nil && entropyOK(b.rng) == entropyOK(o.(rngOption).Reader)) && (o is rngOption && o.(rngOption).Reader == nil ==> b.rng == old(b.rng)) && (!(o is rngOption) ==> b.rng == old(b.rng))
+
+//@ func WithRNG(r io.Reader) (res compositionOption)
+//@ serves C10 C19 C20
+//@ modifies nothing
+//@ ensures wraps[C20]: res is rngOption && res.(rngOption).Reader == r
 
 //@ func NewBuilder(root ed25519.PrivateKey, opts []builderOption) (res Builder)
 //@ serves C10 C16 C19 C20
@@ -919,7 +970,9 @@ package biscuit
 //@ loop 0 invariant b != nil && fresh(b) && b.rootKey == root && b.symbols != nil && 0 <= b.symbolsStart && b.symbolsStart <= len(*b.symbols) && b.facts != nil && fresh(b.facts) && len(*b.facts) == 0 && len(b.rules) == 0 && len(b.checks) == 0
 //@ loop 0 invariant (forall j int :: { opts[j] } 0 <= j && j < #i ==> !(opts[j] is rootKeyIDOption)) ==> b.rootKeyID == nil
 //@ loop 0 invariant #i > 0 && opts[#i-1] is rootKeyIDOption ==> b.rootKeyID != nil && *b.rootKeyID == opts[#i-1].(rootKeyIDOption)
+//@ loop 0 invariant rng_any: forall k int :: { opts[k] } 0 <= k && k < #i && opts[k] is rngOption && opts[k].(rngOption).Reader != nil && (forall j int :: { opts[j] } k < j && j < #i ==> !(opts[j] is rngOption)) ==> b.rng != nil && entropyOK(b.rng) == entropyOK(opts[k].(rngOption).Reader)
 //@ ensures wf: res is *builderOptions && tbWF(res.(*builderOptions))
+//@ ensures draws_from_the_last_source[C20]: forall k int :: { opts[k] } 0 <= k && k < len(opts) && opts[k] is rngOption && opts[k].(rngOption).Reader != nil && (forall j int :: { opts[j] } k < j && j < len(opts) ==> !(opts[j] is rngOption)) ==> res.(*builderOptions).rng != nil && entropyOK(res.(*builderOptions).rng) == entropyOK(opts[k].(rngOption).Reader)
 //@ ensures keyid_absent[C16]: (forall j int :: { opts[j] } 0 <= j && j < len(opts) ==> !(opts[j] is rootKeyIDOption)) ==> res.(*builderOptions).rootKeyID == nil
 //@ ensures keyid_last[C16]: len(opts) > 0 && opts[len(opts)-1] is rootKeyIDOption ==> res.(*builderOptions).rootKeyID != nil && *res.(*builderOptions).rootKeyID == opts[len(opts)-1].(rootKeyIDOption)
 
@@ -928,18 +981,39 @@ package biscuit
 //@ requires tbWF(b) && bPredWF(fact.Predicate)
 //@ modifies *b.facts, spare(*b.facts), *b.symbols, spare(*b.symbols)
 //@ ensures tbWF(b)
+//@ ensures grown: tableGrown(*b.symbols, old(*b.symbols)) && factsGrown(*b.facts, old(*b.facts)) && b.symbolsStart == old(b.symbolsStart)
 
 //@ func (b *builderOptions) AddAuthorityRule(rule Rule) (err error)
 //@ serves C07 C10 C19
 //@ requires tbWF(b) && bRuleWF(rule)
 //@ modifies b.rules, spare(b.rules), *b.symbols, spare(*b.symbols)
 //@ ensures tbWF(b) && err == nil
+//@ ensures grown: tableGrown(*b.symbols, old(*b.symbols)) && rulesGrown(b.rules, old(b.rules))
 
 //@ func (b *builderOptions) AddAuthorityCheck(check Check) (err error)
 //@ serves C07 C10 C19
 //@ requires tbWF(b) && bCheckWF(check)
 //@ modifies b.checks, spare(b.checks), *b.symbols, spare(*b.symbols)
 //@ ensures tbWF(b) && err == nil
+//@ ensures grown: tableGrown(*b.symbols, old(*b.symbols)) && dchecksGrown(b.checks, old(b.checks))
+
+//@ func (b *builderOptions) AddBlock(block ParsedBlock) (err error)
+//@ serves C07 C10 C19
+//@ requires tbWF(b) && bFactsWF(block.Facts) && bRulesWF(block.Rules) && bChecksWF(block.Checks)
+//@ modifies *b.facts, spare(*b.facts), b.rules, spare(b.rules), b.checks, spare(b.checks), *b.symbols, spare(*b.symbols)
+//@ loop 0 modifies *b.facts, spare(*b.facts), *b.symbols, spare(*b.symbols)
+//@ loop 0 invariant wf: tbWF(b)
+//@ loop 0 invariant syms: tableGrown(*b.symbols, old(*b.symbols)) && tableGrownInLoop(*b.symbols, pre(*b.symbols))
+//@ loop 0 invariant facts: factsGrown(*b.facts, old(*b.facts)) && factsGrownInLoop(*b.facts, pre(*b.facts))
+//@ loop 1 modifies b.rules, spare(b.rules), *b.symbols, spare(*b.symbols)
+//@ loop 1 invariant wf: tbWF(b)
+//@ loop 1 invariant syms: tableGrown(*b.symbols, old(*b.symbols)) && tableGrownInLoop(*b.symbols, pre(*b.symbols))
+//@ loop 1 invariant rules: rulesGrown(b.rules, old(b.rules)) && rulesGrownInLoop(b.rules, pre(b.rules))
+//@ loop 2 modifies b.checks, spare(b.checks), *b.symbols, spare(*b.symbols)
+//@ loop 2 invariant wf: tbWF(b)
+//@ loop 2 invariant syms: tableGrown(*b.symbols, old(*b.symbols)) && tableGrownInLoop(*b.symbols, pre(*b.symbols))
+//@ loop 2 invariant checks: dchecksGrown(b.checks, old(b.checks)) && dchecksGrownInLoop(b.checks, pre(b.checks))
+//@ ensures wf: tbWF(b)
 
 //@ func (b *builderOptions) SetContext(context string)
 //@ serves C10 C19
@@ -952,6 +1026,7 @@ package biscuit
 //@ requires tbWF(b)
 //@ modifies *b.symbols
 //@ ensures no_token_on_error[C20]: err != nil ==> res == nil
+//@ ensures entropy_failure_is_reported[C20]: b.rng != nil && !entropyOK(b.rng) ==> err != nil
 //@ ensures wf: err == nil ==> wfToken(res) && len(res.blocks) == 0
 //@ ensures keyid[C16]: err == nil ==> (b.rootKeyID == nil ==> res.container.RootKeyId == nil) && (b.rootKeyID != nil ==> res.container.RootKeyId != nil && *res.container.RootKeyId == *b.rootKeyID)
 //@ ensures content[C07]: err == nil ==> res.authority.facts == b.facts && res.authority.rules == b.rules && res.authority.checks == b.checks && res.authority.context == b.context && res.authority.version == 3
@@ -982,18 +1057,39 @@ package biscuit
 //@ requires bbWF(b) && bPredWF(fact.Predicate)
 //@ modifies *b.facts, spare(*b.facts), *b.symbols, spare(*b.symbols)
 //@ ensures bbWF(b)
+//@ ensures grown: tableGrown(*b.symbols, old(*b.symbols)) && factsGrown(*b.facts, old(*b.facts))
 
 //@ func (b *blockBuilder) AddRule(rule Rule) (err error)
 //@ serves C07 C08 C10 C19
 //@ requires bbWF(b) && bRuleWF(rule)
 //@ modifies b.rules, spare(b.rules), *b.symbols, spare(*b.symbols)
 //@ ensures bbWF(b) && err == nil
+//@ ensures grown: tableGrown(*b.symbols, old(*b.symbols)) && rulesGrown(b.rules, old(b.rules))
 
 //@ func (b *blockBuilder) AddCheck(check Check) (err error)
 //@ serves C07 C08 C10 C19
 //@ requires bbWF(b) && bCheckWF(check)
 //@ modifies b.checks, spare(b.checks), *b.symbols, spare(*b.symbols)
 //@ ensures bbWF(b) && err == nil
+//@ ensures grown: tableGrown(*b.symbols, old(*b.symbols)) && dchecksGrown(b.checks, old(b.checks))
+
+//@ func (b *blockBuilder) AddBlock(block ParsedBlock) (err error)
+//@ serves C07 C08 C10 C19
+//@ requires bbWF(b) && bFactsWF(block.Facts) && bRulesWF(block.Rules) && bChecksWF(block.Checks)
+//@ modifies *b.facts, spare(*b.facts), b.rules, spare(b.rules), b.checks, spare(b.checks), *b.symbols, spare(*b.symbols)
+//@ loop 0 modifies *b.facts, spare(*b.facts), *b.symbols, spare(*b.symbols)
+//@ loop 0 invariant wf: bbWF(b)
+//@ loop 0 invariant syms: tableGrown(*b.symbols, old(*b.symbols)) && tableGrownInLoop(*b.symbols, pre(*b.symbols))
+//@ loop 0 invariant facts: factsGrown(*b.facts, old(*b.facts)) && factsGrownInLoop(*b.facts, pre(*b.facts))
+//@ loop 1 modifies b.rules, spare(b.rules), *b.symbols, spare(*b.symbols)
+//@ loop 1 invariant wf: bbWF(b)
+//@ loop 1 invariant syms: tableGrown(*b.symbols, old(*b.symbols)) && tableGrownInLoop(*b.symbols, pre(*b.symbols))
+//@ loop 1 invariant rules: rulesGrown(b.rules, old(b.rules)) && rulesGrownInLoop(b.rules, pre(b.rules))
+//@ loop 2 modifies b.checks, spare(b.checks), *b.symbols, spare(*b.symbols)
+//@ loop 2 invariant wf: bbWF(b)
+//@ loop 2 invariant syms: tableGrown(*b.symbols, old(*b.symbols)) && tableGrownInLoop(*b.symbols, pre(*b.symbols))
+//@ loop 2 invariant checks: dchecksGrown(b.checks, old(b.checks)) && dchecksGrownInLoop(b.checks, pre(b.checks))
+//@ ensures wf: bbWF(b)
 
 //@ func (b *blockBuilder) SetContext(context string)
 //@ serves C10 C19
